@@ -272,7 +272,8 @@ fn run_inner<I: Inst>(p: &Program) -> (Outcome, Option<GenericPurl<I::T>>) {
     match b.build() {
         Ok(p) => match text(&p) {
             Ok(t) => (Outcome::Built(observe(&p), t), Some(p)),
-            Err(m) => (Outcome::Panicked(format!("to_string: {m}")), None),
+            // the value is still handed back: C04 judges it even if it cannot be printed
+            Err(m) => (Outcome::Panicked(format!("to_string: {m}")), Some(p)),
         },
         Err(e) => (Outcome::BuildErr(I::err_kind(&e)), None),
     }
